@@ -147,7 +147,7 @@ def one(ctx, i, rep=None):
 
 
 def run(ctx):
-    for i in ctx.indices(150 if ctx.tier == 'quick' else 4000, 'random'):
+    for i in ctx.indices(600 if ctx.tier == 'quick' else 4000, 'random'):
         one(ctx, i)
 
 
